@@ -63,6 +63,7 @@ type wconf struct {
 	VKey    string      // ... and shared secret, with which the upstream verifies ("" when there is none)
 	Inject  [][2]string // inject_request_headers
 	Up      string      // upstream transport: "" / "http", "https" (HTTP/1.1 only), "h2" (https offering h2 by ALPN)
+	Timeout string      // upstream `timeout:` option ("" = 30s)
 	Via     string      // how an https upstream is named: "to" (`to: https://host`) or "scheme" (deployment scheme)
 	Note    string
 }
@@ -126,7 +127,11 @@ func newWorld(dir string, auth *c.FakeAuth, keyPEM string, wc wconf) *world {
 	opts := []string{
 		"      allowed_email_domains: [\"example.com\"]",
 		"      skip_auth_regex: [\"^/open\"]",
-		"      timeout: 30s",
+	}
+	if wc.Timeout != "" {
+		opts = append(opts, "      timeout: "+wc.Timeout)
+	} else {
+		opts = append(opts, "      timeout: 30s")
 	}
 	if wc.Skip {
 		opts = append(opts, "      skip_request_signing: true")
@@ -180,7 +185,11 @@ func newWorld(dir string, auth *c.FakeAuth, keyPEM string, wc wconf) *world {
 	st, _, body := w.roundTrip([]byte("GET /oauth2/v1/certs HTTP/1.1\r\nHost: "+fromHost+"\r\nConnection: close\r\n\r\n"), "GET")
 	w.certs = map[string]string{}
 	if st == 200 && len(bytes.TrimSpace(body)) > 0 {
-		c.Must(json.Unmarshal(body, &w.certs))
+		// a certs document that is not the documented JSON object publishes no key: the monitor then sees
+		// "kid names no published key" (an observation, not a harness error)
+		if json.Unmarshal(body, &w.certs) != nil {
+			w.certs = map[string]string{}
+		}
 	}
 	return w
 }
@@ -239,6 +248,7 @@ type spec struct {
 	Email   string
 	Token   string
 	Note    string
+	Fault   string // upstream fault planned for this request (see backend.go plan), "" = none
 	id      string // X-Verif-Id, unique per request: the backend files what it received under it
 	sealed  string // the sealed session value used in the last raw() (a ciphertext: never enters a case)
 }
@@ -427,23 +437,36 @@ type flight struct {
 }
 
 func (w *world) prep(s *spec) *flight {
+	if w.startErr != nil {
+		// the configuration was refused (judged by its CCfg case): nothing can be forwarded through it
+		nextID++
+		s.id = strconv.Itoa(nextID)
+		return &flight{s: s, perr: w.startErr}
+	}
 	f := &flight{s: s, raw: w.raw(s)}
 	// the request as the proxy's server parses it: net/http's own parser on the same bytes
 	f.in, f.perr = http.ReadRequest(bufio.NewReader(bytes.NewReader(f.raw)))
 	return f
 }
 
-func (w *world) send(f *flight) { f.status, _, _ = w.roundTrip(f.raw, f.s.Method) }
+func (w *world) send(f *flight) {
+	if w.srv == nil {
+		return
+	}
+	f.status, _, _ = w.roundTrip(f.raw, f.s.Method)
+}
 
-// run executes one spec against one world and produces a case.
-func (w *world) run(s *spec) c.Case {
+// run executes one spec against one world and produces its case(s).
+func (w *world) run(s *spec) []c.Case {
 	f := w.prep(s)
 	w.send(f)
 	return w.emit(f)
 }
 
-// emit turns a completed flight and what the backend recorded for it into a case.
-func (w *world) emit(f *flight) c.Case {
+// emit turns a completed flight and what the backend recorded for it into cases: one per ATTEMPT the
+// upstream received completely (normally one; after an upstream fault the transport may try again, and
+// every attempt is a forwarded request the property speaks about), or "not forwarded".
+func (w *world) emit(f *flight) []c.Case {
 	s, in, err, status := f.s, f.in, f.perr, f.status
 	js := map[string]interface{}{
 		"world": w.js,
@@ -452,9 +475,12 @@ func (w *world) emit(f *flight) c.Case {
 	}
 	seen := w.backend.Take(s.id)
 	js["status"] = status
-	if err != nil || len(seen) != 1 {
+	if s.Fault != "" {
+		js["upstream_fault"] = s.Fault
+	}
+	if err != nil || len(seen) == 0 {
 		js["forwarded"] = false
-		return c.Case{Coq: fmt.Sprintf("CNotFwd %s %s", c.Bool(s.Expect), c.N(status)), JSON: js}
+		return []c.Case{{Coq: fmt.Sprintf("CNotFwd %s %s", c.Bool(s.Expect), c.N(status)), JSON: js}}
 	}
 	sub := func(x string) string {
 		if s.sealed != "" {
@@ -496,57 +522,70 @@ func (w *world) emit(f *flight) c.Case {
 		str(in.Method), str(in.Host), sortedHeaders(in.Header, sub), str(in.URL.Path), str(in.URL.RawQuery), str(in.URL.Fragment),
 		bodyLit(inBody), c.Bool(chunked))
 
-	// ---- what the upstream received
-	got := seen[0]
-	gu, uerr := url.ParseRequestURI(got.URI)
-	if uerr != nil {
-		gu = &url.URL{Path: got.URI}
-	}
-	mk := func() *http.Request {
-		return &http.Request{Method: got.Method, URL: gu, Header: got.Header.Clone(), Host: got.Host,
-			Body: ioutil.NopCloser(bytes.NewReader(got.Body)), ContentLength: int64(len(got.Body))}
-	}
-	implRSA, _ := proxy.VerifMapRequestToHashInput(mk())
-	implHMAC := w.hm.StringToSign(mk())
-	sigName, kidName := proxy.VerifSignatureHeaderNames()
-	// RSA verdict
-	var vRSA *bool
-	_, kidOK := w.certs[got.Header.Get(kidName)]
-	if sigs, ok := got.Header[sigName]; ok && len(sigs) > 0 {
-		v := false
-		if pemStr, ok := w.certs[got.Header.Get(kidName)]; ok {
-			if blk, _ := pem.Decode([]byte(pemStr)); blk != nil {
-				if pub, err := x509.ParsePKCS1PublicKey(blk.Bytes); err == nil {
-					if sig, err := base64.URLEncoding.DecodeString(sigs[0]); err == nil {
-						d := sha256.Sum256([]byte(implRSA))
-						v = rsa.VerifyPKCS1v15(pub, crypto.SHA256, d[:], sig) == nil
+	// ---- what the upstream received, attempt by attempt
+	var out []c.Case
+	for ai, got := range seen {
+		js := copyJS(js)
+		js["attempt"] = fmt.Sprintf("%d of %d", ai+1, len(seen))
+		gu, uerr := url.ParseRequestURI(got.URI)
+		if uerr != nil {
+			gu = &url.URL{Path: got.URI}
+		}
+		mk := func() *http.Request {
+			return &http.Request{Method: got.Method, URL: gu, Header: got.Header.Clone(), Host: got.Host,
+				Body: ioutil.NopCloser(bytes.NewReader(got.Body)), ContentLength: int64(len(got.Body))}
+		}
+		implRSA, _ := proxy.VerifMapRequestToHashInput(mk())
+		implHMAC := w.hm.StringToSign(mk())
+		sigName, kidName := proxy.VerifSignatureHeaderNames()
+		// RSA verdict
+		var vRSA *bool
+		_, kidOK := w.certs[got.Header.Get(kidName)]
+		if sigs, ok := got.Header[sigName]; ok && len(sigs) > 0 {
+			v := false
+			if pemStr, ok := w.certs[got.Header.Get(kidName)]; ok {
+				if blk, _ := pem.Decode([]byte(pemStr)); blk != nil {
+					if pub, err := x509.ParsePKCS1PublicKey(blk.Bytes); err == nil {
+						if sig, err := base64.URLEncoding.DecodeString(sigs[0]); err == nil {
+							d := sha256.Sum256([]byte(implRSA))
+							v = rsa.VerifyPKCS1v15(pub, crypto.SHA256, d[:], sig) == nil
+						}
 					}
 				}
 			}
+			vRSA = &v
 		}
-		vRSA = &v
+		res, _, _ := w.hm.AuthenticateRequest(mk())
+		rsaLit := str(sub(implRSA))
+		if long && strings.HasSuffix(implRSA, string(s.Body)) {
+			rsaLit = "(" + str(sub(strings.TrimSuffix(implRSA, string(s.Body)))) + " ++ b)"
+		}
+		recv := fmt.Sprintf("{| o_proto := %s; o_method := %s; o_headers := %s; o_path := %s; o_rawquery := %s; o_body := %s |}",
+			str(got.Proto), str(got.Method), sortedHeaders(abbreviate(got.Header, pubKid), sub), str(gu.Path), str(gu.RawQuery), bodyLit(got.Body))
+		js["forwarded"] = true
+		js["received"] = map[string]interface{}{"proto": got.Proto, "method": got.Method, "uri": got.URI, "headers": headerJSON(got.Header), "body": short(got.Body)}
+		js["rsa_verifies"] = vRSA
+		js["kid_published"] = kidOK
+		js["hmac_result"] = int(res)
+		js["body_intact"] = bytes.Equal(got.Body, s.Body)
+		coq := fmt.Sprintf("CFwd %s %s %s %s %s %s %s %s %s %s %s %s",
+			w.coq, str(w.VKey), ident, incoming, c.List(cookies), bodyLit(s.Body), recv, rsaLit, str(sub(implHMAC)),
+			optBool(vRSA), c.Bool(kidOK), c.N(int(res)))
+		if long {
+			// a long body is written once and named; every place whose bytes equal it refers to the name
+			coq = "(let b := " + str(string(s.Body)) + " in " + coq + ")"
+		}
+		out = append(out, c.Case{Coq: coq, JSON: js})
 	}
-	res, _, _ := w.hm.AuthenticateRequest(mk())
-	rsaLit := str(sub(implRSA))
-	if long && strings.HasSuffix(implRSA, string(s.Body)) {
-		rsaLit = "(" + str(sub(strings.TrimSuffix(implRSA, string(s.Body)))) + " ++ b)"
+	return out
+}
+
+func copyJS(m map[string]interface{}) map[string]interface{} {
+	o := map[string]interface{}{}
+	for k, v := range m {
+		o[k] = v
 	}
-	recv := fmt.Sprintf("{| o_proto := %s; o_method := %s; o_headers := %s; o_path := %s; o_rawquery := %s; o_body := %s |}",
-		str(got.Proto), str(got.Method), sortedHeaders(abbreviate(got.Header, pubKid), sub), str(gu.Path), str(gu.RawQuery), bodyLit(got.Body))
-	js["forwarded"] = true
-	js["received"] = map[string]interface{}{"proto": got.Proto, "method": got.Method, "uri": got.URI, "headers": headerJSON(got.Header), "body": short(got.Body)}
-	js["rsa_verifies"] = vRSA
-	js["kid_published"] = kidOK
-	js["hmac_result"] = int(res)
-	js["body_intact"] = bytes.Equal(got.Body, s.Body)
-	coq := fmt.Sprintf("CFwd %s %s %s %s %s %s %s %s %s %s %s %s",
-		w.coq, str(w.VKey), ident, incoming, c.List(cookies), bodyLit(s.Body), recv, rsaLit, str(sub(implHMAC)),
-		optBool(vRSA), c.Bool(kidOK), c.N(int(res)))
-	if long {
-		// a long body is written once and named; every place whose bytes equal it refers to the name
-		coq = "(let b := " + str(string(s.Body)) + " in " + coq + ")"
-	}
-	return c.Case{Coq: coq, JSON: js}
+	return o
 }
 
 // ---------------------------------------------------------------- generators
@@ -894,10 +933,65 @@ func (w *world) overlap(r *c.Rng, sizes []int, expect bool, gomax1 bool) []c.Cas
 	<-done
 	var cases []c.Case
 	for _, f := range fl {
-		cases = append(cases, w.emit(f))
+		cases = append(cases, w.emit(f)...)
 	}
 	return cases
 }
+
+// ---------------------------------------------------------------- upstream faults
+
+// faulted runs one request whose upstream misbehaves at one particular point (backend.go plan), optionally
+// after a warm-up request so that the proxy's transport holds an idle keep-alive connection (net/http
+// re-sends some requests on its own when a REUSED connection dies) or after all upstream connections were
+// closed (fresh dial). Whatever the proxy and its transport do about the fault — give up with 502, try
+// again — every attempt that reaches the upstream completely is a forwarded request and is judged by the
+// unchanged monitor: own body intact, own signatures verify.
+func (w *world) faulted(r *c.Rng, s *spec, p plan, warm bool) []c.Case {
+	var cases []c.Case
+	if warm {
+		cases = append(cases, w.run(baseSpec("warm-up before an upstream fault", "GET", "/warm"))...)
+	} else {
+		w.backend.Srv.CloseClientConnections()
+		time.Sleep(10 * time.Millisecond)
+	}
+	f := w.prep(s)
+	w.backend.Plan(s.id, p)
+	w.send(f)
+	return append(cases, w.emit(f)...)
+}
+
+func faultSpec(r *c.Rng, method, mode string, n int, kind string) (*spec, plan) {
+	s := baseSpec("", method, "/fault/"+strings.ToLower(method)+"?k="+kind, hdr{"Content-Type", "application/json"}, hdr{"Authorization", "Bearer abc"})
+	s.Cookies = []string{"a=1; @S"}
+	s.Mode = mode
+	if mode != "none" {
+		s.Body = []byte(fmt.Sprintf("{\"acl\":[%d],\"owner\":\"alice@example.com\",\"pad\":\"%s\"}", r.Intn(1000), strings.Repeat("x", n)))
+		s.Chunks = 1 + r.Intn(3)
+	}
+	var p plan
+	switch kind {
+	case "drop-after-read":
+		p = plan{DropAfterRead: 1}
+	case "drop-after-read-twice":
+		p = plan{DropAfterRead: 2}
+	case "reset-after-read":
+		p = plan{DropAfterRead: 1, Reset: true}
+	case "drop-before-body":
+		p = plan{DropBeforeBody: 1}
+		s.Expect = false // nothing may reach the upstream completely; if something does, it is judged
+	case "503-retry-after":
+		p = plan{Status: 503, RespHeader: map[string]string{"Retry-After": "0", "Cache-Control": "no-store"}}
+	case "429":
+		p = plan{Status: 429, RespHeader: map[string]string{"Retry-After": "1"}}
+	case "slow":
+		p = plan{Slow: 2500 * time.Millisecond}
+	}
+	s.Fault = kind
+	s.Note = fmt.Sprintf("upstream fault %s on %s with %s body", kind, method, mode)
+	return s, p
+}
+
+var faultKinds = []string{"drop-after-read", "drop-after-read", "drop-after-read-twice", "reset-after-read", "drop-before-body", "503-retry-after", "429"}
 
 // transportSpecs: what an upstream transport could re-frame.
 func transportSpecs(r *c.Rng) []*spec {
@@ -979,6 +1073,10 @@ func main() {
 		wc.Up, wc.Via, wc.Inject, wc.Note = t.up, t.via, t.inj, "upstream transport "+t.up+" via "+t.via
 		tlsWorlds = append(tlsWorlds, build(wc))
 	}
+	// a world whose upstream timeout is short (TimeoutHandler in front of the reverse proxy)
+	swc := baseConf(true, true, false)
+	swc.Timeout, swc.Note = "1s", "timeout: 1s"
+	slowWorld := build(swc)
 	// worlds over the signing-key grammar (some are refused at start: an observation too)
 	nKey := 10
 	if thorough {
@@ -990,44 +1088,72 @@ func main() {
 			keyWorlds = append(keyWorlds, w)
 		}
 	}
-	for _, w := range append(append(append([]*world{}, worlds...), injWorlds...), tlsWorlds...) {
-		if w.startErr != nil {
-			c.Must(fmt.Errorf("base configuration refused: %v", w.startErr))
-		}
-	}
-
+	// (a base configuration that is refused at start is judged by its CCfg case — documented-valid, so a
+	// violation — and every request planned for that world becomes "expected to be forwarded, was not")
 	// corpus first: every corpus request against the fully signing world, the witnesses against all
 	corp := corpus(r, a.Tier)
 	for _, s := range corp {
-		cases = append(cases, worlds[0].run(s))
+		cases = append(cases, worlds[0].run(s)...)
 	}
 	for _, s := range corp[:18] {
 		for _, w := range worlds[1:] {
-			cases = append(cases, w.run(s))
+			cases = append(cases, w.run(s)...)
 		}
 	}
 	// injection: the non-vacuity POST, a plain GET, a skip-auth request and a request whose own covered
 	// headers collide with the injected ones, against every injecting world; a few requests per key world
 	for _, w := range injWorlds {
-		cases = append(cases, w.run(corp[0]), w.run(corp[1]))
+		cases = append(append(cases, w.run(corp[0])...), w.run(corp[1])...)
 		s := baseSpec("skip-auth path under inject_request_headers", "GET", "/open/inj", hdr{"Authorization", "Bearer client"}, hdr{"X-Forwarded-User", "mallory"})
 		s.Ident, s.Cookies = false, []string{"a=1"}
-		cases = append(cases, w.run(s))
+		cases = append(cases, w.run(s)...)
 		s = baseSpec("client values collide with injected headers", "POST", "/inj", hdr{"Authorization", "Bearer client"}, hdr{"Date", "client-date"},
 			hdr{"Content-Type", "text/client"}, hdr{"X-Forwarded-Email", "client@evil.test"}, hdr{"X-Custom", "client"}, hdr{"Content-Md5", "client"})
 		s.Mode, s.Body, s.Cookies = "sized", []byte("payload"), []string{"c=client; @S"}
-		cases = append(cases, w.run(s))
+		cases = append(cases, w.run(s)...)
 	}
 	for _, w := range keyWorlds {
-		cases = append(cases, w.run(corp[0]), w.run(corp[1]))
+		cases = append(append(cases, w.run(corp[0])...), w.run(corp[1])...)
 	}
 	// upstream transport: 0-4 cookies left after the session cookie is stripped (one or several Cookie lines),
 	// multi-valued covered headers, bodies sized / chunked / Expect: 100-continue — against every https / h2
 	// upstream and, for parity, the plain-http base world
 	for _, w := range append([]*world{worlds[0]}, tlsWorlds...) {
 		for _, s := range transportSpecs(r) {
-			cases = append(cases, w.run(s))
+			cases = append(cases, w.run(s)...)
 		}
+	}
+	// upstream faults at one particular point, idempotent and other methods, bodies of known and unknown length,
+	// on a reused and on a freshly dialled upstream connection
+	nFault := 30
+	if thorough {
+		nFault = 400
+	}
+	fw := []*world{worlds[0], worlds[2], worlds[1], tlsWorlds[0], injWorlds[0]}
+	k := 0
+	for _, m := range []string{"PUT", "DELETE", "GET", "POST"} { // the systematic part first
+		for _, mode := range []string{"chunked", "sized", "none"} {
+			s, p := faultSpec(r, m, mode, 20, "drop-after-read")
+			cases = append(cases, fw[k%len(fw)].faulted(r, s, p, k%2 == 0)...)
+			k++
+		}
+	}
+	for ; k < nFault; k++ {
+		s, p := faultSpec(r, r.Pick([]string{"PUT", "DELETE", "GET", "HEAD", "OPTIONS", "POST", "PATCH"}),
+			r.Pick([]string{"chunked", "chunked", "sized", "none"}), r.Intn(3000), r.Pick(faultKinds))
+		if s.Method == "HEAD" {
+			s.Mode, s.Body = "none", nil
+		}
+		cases = append(cases, fw[k%len(fw)].faulted(r, s, p, r.Chance(0.5))...)
+	}
+	// a slow upstream behind a short TimeoutHandler: the client gets 503, what reached the upstream is judged
+	nSlow := 2
+	if thorough {
+		nSlow = 6
+	}
+	for i := 0; i < nSlow; i++ {
+		s, p := faultSpec(r, []string{"PUT", "POST", "GET"}[i%3], []string{"chunked", "sized", "none"}[i%3], 50, "slow")
+		cases = append(cases, slowWorld.faulted(r, s, p, i%2 == 0)...)
 	}
 	// overlapping requests
 	sizePool := []int{1, 7, 64, 1000, 4096, 65536}
@@ -1040,8 +1166,8 @@ func main() {
 		w := []*world{worlds[0], worlds[2], worlds[1], injWorlds[0], tlsWorlds[1]}[g%5]
 		k := 2 + r.Intn(3)
 		first := sizePool[r.Intn(len(sizePool))]
-		if first > 4096 && !thorough && g > 2 {
-			first = 4096 // keep quick quick: at most a few large literals
+		if first > 4096 && (g > 2 && !thorough || g > 14) {
+			first = 4096 // at most a few large literals per run (coqc time and memory)
 		}
 		sizes := []int{first}
 		for i := 1; i < k; i++ {
@@ -1076,7 +1202,7 @@ func main() {
 		default:
 			w = keyWorlds[r.Intn(len(keyWorlds))]
 		}
-		cases = append(cases, w.run(s))
+		cases = append(cases, w.run(s)...)
 	}
 	c.Must(c.WriteShards(a.Out, "Corr_C12", cases, a.Shard))
 	fmt.Printf("cases=%d\n", len(cases))
